@@ -43,12 +43,16 @@ BUILTIN_EXCEPTIONS = {"Exception", "ValueError", "TypeError", "KeyError", "Looku
 
 
 def check(run, repo, tier):
-  w = World(repo)
-  r1_who_may_emit(run, w, "C11-R1")
-  r2_prepare(run, w)
-  r3_unique(run, w)
-  r4_rebuild(run, w)
-  r5_ownership(run, w)
+  V = H.guarded_views
+  V(run, repo, r1_who_may_emit, "C11-R1")
+  V(run, repo, r2_prepare)
+  V(run, repo, r3_unique)
+  V(run, repo, r4_rebuild)
+  V(run, repo, r5_ownership)
+  V(run, repo, r6_reference_index)
+
+
+def r6_reference_index(run, w):
   # R6 = C05-R5: the reverse values are read from the column's own relation (see
   # get_reverse_adjustments / recalc_from_reverse_values), so symmetry needs that index exact.
   from . import c05
